@@ -15,6 +15,7 @@ import (
 	"os"
 	"runtime"
 	"strings"
+	"sync"
 	"time"
 
 	"github.com/btcsuite/btcd/btcutil/v2"
@@ -89,6 +90,9 @@ type SpendIn struct {
 var (
 	r       *ev.Run
 	workers = runtime.NumCPU()
+
+	failMu    sync.Mutex
+	failCount = map[string]int{}
 )
 
 func hx(b []byte) string { return hex.EncodeToString(b) }
@@ -246,6 +250,16 @@ func short(s string) string {
 // report re-runs a failing case three times (verdict must be stable) and
 // records the violation.
 func report(c *Case, msg string, rerun func(*Case) string) {
+	// a broken function fails thousands of cases: the first 25 per sub-check are
+	// re-run and recorded individually, the rest are only counted
+	failMu.Lock()
+	failCount[c.Sub]++
+	nth := failCount[c.Sub]
+	failMu.Unlock()
+	if nth > 25 {
+		r.Add("failing_cases_beyond_the_first_25_per_subcheck_counted_only", 1)
+		return
+	}
 	for i := 0; i < 3; i++ {
 		if m := rerun(c); m != msg {
 			r.Broken("verdict of case %s flipped on re-run: %q vs %q", keyOf(c), msg, m)
@@ -294,6 +308,8 @@ func main() {
 		var c Case
 		r.LoadReplay(&c)
 		bindVectors()
+		r.Eval(1)
+		r.Trace(1)
 		if msg := runCase(&c); msg != "" {
 			report(&c, msg, runCase)
 		}
@@ -308,6 +324,16 @@ func main() {
 	}
 
 	bindVectors()
+
+	r.Set("bounds", map[string]interface{}{
+		"merkle":     "tx-list length 1..33 x {as is, last entry duplicated} x {txid, wtxid form} x 4 witness-placement variants; paths: Tx.Hash/WitnessHash leaves, CalcMerkleRoot, BuildMerkleTreeStore (root + every interior node + empty slots), rolling store with size hints {0,1,n,n+1,2n,64,2^20}, rolling add forest roots; n=0 executed, not judged",
+		"commit":     "all sequences of 0..4 coinbase outputs over {unrelated, commitment, wrong-magic, 37-byte, 39-byte, header+wrong hash} x coinbase witness stack item sizes {none,[0],[31],[32],[33],[32,32],[32,0],[0,32]} x extra txs {none,[n],[w],[n,w],[w,w],[w,n,w]} x nonce {zero, non-zero}; ExtractWitnessCommitment (found + bytes) and ValidateWitnessCommitment (accept/reject)",
+		"weight":     "tx: sequences of input kinds (12: sigScript len 0/1/252/253/65535/65536 x witness item counts/lengths 0/252/253/65535/65536) x sequences of output kinds (pkScript len 0/1/252/253/65535/65536): quick len<=2 full + len 3 over sub-alphabets, thorough len<=3 full; element counts in/out/witness-items in {0,1,252,253,254}; block: 0,1,2,3,252,253,254 txs x {no witness, all witness, mixed}",
+		"sigops":     "every concatenation of <=3 (thorough 4) tokens of a 41-token alphabet (CHECKSIG(VERIFY), CHECKMULTISIG(VERIFY), OP_0, OP_1..16, 1NEGATE, RESERVED, NOP, DUP, CHECKSIGADD, 0xff, pushes 0x01/0x4b/0x4c/0x4d/0x4e complete, without length, with short data, 4GiB) and every byte string of length <=2 (thorough 3) for GetSigOpCount + accurate count; P2SH: (<=1 token + push(redeem <=2 tokens)), (push(redeem)+token), raw <=3-token scriptSigs, 8 near-P2SH pkScripts; witness: 23 program shapes x witness {nil,[],[[]],[s],[x,s],[s,x] for s<=2 tokens} x 9 nested scriptSig forms; GetSigOpCost/CountSigOps/CountP2SHSigOps on txs of 1..2 (thorough 3) inputs over 20 spend kinds x 4 output sets x bip16 x segwit + coinbases",
+		"cbheight":   "first byte 0x00..0xff x tails of 0..5 bytes over {00,01,7f,80,ff}; plus complete/short pushes of 5..75 bytes, PUSHDATA/opcodes first bytes, boundary heights with junk/non-minimal/truncated forms; ExtractCoinbaseHeight per script and CheckSerializedHeight for 6 (thorough 11) fixed + script-derived candidate heights",
+		"locks_pure": "IsFinalizedTransaction: locktime in {0,1,h-1,h,h+1,t-1,t,t+1,499999999,500000000,500000001,2^31-1,2^31,2^32-2,2^32-1} x 10 sequence patterns x 6 heights x 12 times; SequenceLockActive: 6x6 lock values around 5 heights x 7 MTPs; LockTimeToSequence: 8 block values, 14 second values (demanded only inside BIP68's range)",
+		"seqlock":    "5 timestamp patterns x CSV {always active, never active} x every tip height 0..14 of a real regtest-like chain x mempool flag x tx version {2,1,-1,0,3} x inputs: 1 input (12 sequence numbers x <=6 input ages {mempool,0,1,tip/2,tip-1,tip}), 2 inputs (full product for version 2, 4x3 sub-alphabet otherwise; thorough full), 3 inputs (4x3 sub-alphabet), coinbase-shaped txs, real coinbase utxos via FetchUtxoView; checked: (Seconds,BlockHeight) pair, SequenceLockActive for inclusion at tip+1 vs the per-input BIP68 statement, BestSnapshot().MedianTime vs BIP113",
+	})
 
 	complete := true
 	steps := []struct {
